@@ -4,6 +4,7 @@ import (
 	"fmt"
 
 	"example.test/p6/lib"
+	"example.test/p6/lib2"
 )
 
 type runner struct{ name string }
@@ -13,9 +14,14 @@ func (r runner) run() string {
 	return t.Walk()
 }
 
+func (r runner) run2() string {
+	t := &lib2.Tracer{Depth: 0}
+	return t.Walk()
+}
+
 func unexportedEntry() string {
 	r := runner{name: "r"}
-	return r.run()
+	return r.run() + r.run2()
 }
 
 func main() {
